@@ -19,6 +19,11 @@ import (
 	"go/parser"
 	"go/scanner"
 	"go/token"
+	"os"
+	"path/filepath"
+	"reflect"
+	"runtime"
+	"sort"
 	"strings"
 	"sync"
 	"time"
@@ -265,6 +270,17 @@ func runC12(tier, replay string) {
 		var p prPoint
 		var fl flowBody
 		var cp cmtPoint
+		var cf struct {
+			File string `json:"corpus_file"`
+		}
+		if loadReplay(replay, &cf) == nil && cf.File != "" {
+			prCorpusFile(run, filepath.Join(runtime.GOROOT(), "src", cf.File))
+			run.Eval("x")
+			run.Set("states", 1)
+			run.Set("transitions", 1)
+			run.Set("traces_validated_against_impl", 1)
+			run.Finish()
+		}
 		switch {
 		case loadReplay(replay, &cp) == nil && len(cp.Ops) > 0 && cp.Kind == "comments":
 			cmtCheck(run, cp)
@@ -407,6 +423,39 @@ func runC12(tier, replay string) {
 		total += nb
 		run.Set("builder_"+c.name, fmt.Sprintf("%d function bodies built, printed, read back and reformatted", nb))
 	}
+	// D: position-stripped standard-library files
+	var files []string
+	for _, dir := range []string{"sort", "strings", "go/ast", "go/token", "container/list", "container/heap", "errors", "bufio", "path", "text/tabwriter", "slices", "maps", "sync", "encoding/json", "go/printer", "go/types", "net/url", "time", "fmt", "regexp/syntax"} {
+		m, _ := filepath.Glob(filepath.Join(runtime.GOROOT(), "src", dir, "*.go"))
+		for _, f := range m {
+			if !strings.HasSuffix(f, "_test.go") {
+				files = append(files, f)
+			}
+		}
+	}
+	sort.Strings(files)
+	if tier != "thorough" && len(files) > 60 {
+		step := len(files) / 60
+		var pick []string
+		for i := 0; i < len(files); i += step {
+			pick = append(pick, files[i])
+		}
+		files = pick
+	}
+	if _, err := os.Stat(filepath.Join(runtime.GOROOT(), "src", "sort", "sort.go")); err != nil {
+		run.Infra(fmt.Errorf("standard library sources not found under %s", runtime.GOROOT()))
+	}
+	var cmu sync.Mutex
+	ncorpus := 0
+	parallelN(8, len(files), func(i int) {
+		if prCorpusFile(run, files[i]) {
+			cmu.Lock()
+			ncorpus++
+			cmu.Unlock()
+		}
+	})
+	run.Set("corpus", fmt.Sprintf("%d standard-library files printed without positions, read back and reformatted (supplementary)", ncorpus))
+	total += int64(ncorpus)
 	// C: the statement-comment protocol
 	st, tr, n := cmtRun(run, tier)
 	states, transitions, total = states+st, transitions+tr, total+n
@@ -418,3 +467,111 @@ func runC12(tier, replay string) {
 	run.Assume("gofmt's layout is not modelled: canonicality is the predicate 'go/format leaves the text unchanged' evaluated on specification-enumerated trees")
 	run.Finish()
 }
+
+// ---------- D: position-stripped standard-library files (supplementary, not specification-derived) ----------
+
+// stripPositions zeroes every token.Pos of the tree (keeping "is set" for the two positions that carry
+// structure: f(xs...) and type alias =), and removes comments.
+func stripPositions(n ast.Node) {
+	var walk func(v reflect.Value)
+	posT := reflect.TypeOf(token.Pos(0))
+	walk = func(v reflect.Value) {
+		switch v.Kind() {
+		case reflect.Ptr, reflect.Interface:
+			if !v.IsNil() {
+				walk(v.Elem())
+			}
+		case reflect.Slice:
+			for i := 0; i < v.Len(); i++ {
+				walk(v.Index(i))
+			}
+		case reflect.Struct:
+			t := v.Type()
+			for i := 0; i < t.NumField(); i++ {
+				f := t.Field(i)
+				fv := v.Field(i)
+				if !fv.CanSet() {
+					continue
+				}
+				switch {
+				case f.Name == "Obj" || f.Name == "Scope" || f.Name == "Unresolved":
+					fv.Set(reflect.Zero(f.Type))
+				case f.Type == reflect.TypeOf((*ast.CommentGroup)(nil)) || f.Name == "Comments":
+					fv.Set(reflect.Zero(f.Type))
+				case f.Type == posT:
+					keep := (t.Name() == "CallExpr" && f.Name == "Ellipsis") || (t.Name() == "TypeSpec" && f.Name == "Assign")
+					if keep && fv.Int() != 0 {
+						fv.SetInt(1)
+					} else {
+						fv.SetInt(0)
+					}
+				default:
+					walk(fv)
+				}
+			}
+		}
+	}
+	walk(reflect.ValueOf(n))
+}
+
+func prCorpusFile(run *ev.Run, path string) bool {
+	fset := token.NewFileSet()
+	f, err := parser.ParseFile(fset, path, nil, parser.SkipObjectResolution)
+	if err != nil {
+		return false
+	}
+	rel := path[strings.Index(path, "/src/")+5:]
+	want := canonUntyped(f)
+	stripPositions(f)
+	run.Eval("corpus:" + rel)
+	var buf bytes.Buffer
+	var perr error
+	func() {
+		defer func() {
+			if e := recover(); e != nil {
+				perr = fmt.Errorf("panic: %v", e)
+			}
+		}()
+		perr = gogen.VerifFormatNode(&buf, f)
+	}()
+	rep := map[string]any{"corpus_file": rel}
+	if perr != nil {
+		run.Fail("corpus/print-fails", fmt.Sprintf("%s without positions: %v", rel, perr), rep)
+		return true
+	}
+	back, err := parser.ParseFile(token.NewFileSet(), "o.go", buf.Bytes(), parser.SkipObjectResolution)
+	if err != nil {
+		run.Fail("corpus/printed-text-does-not-parse/"+firstWord(stripPos(err.Error())), fmt.Sprintf("%s printed without positions does not parse: %v", rel, err), rep)
+		return true
+	}
+	if got := canonUntyped(back); got != want {
+		run.Fail("corpus/reads-back-as-another-tree", fmt.Sprintf("%s printed without positions reads back as another tree: %s", rel, canonDiff(want, got)), rep)
+		return true
+	}
+	fm, err := format.Source(buf.Bytes())
+	if err == nil && !bytes.Equal(fm, buf.Bytes()) {
+		a, b := strings.Split(buf.String(), "\n"), strings.Split(string(fm), "\n")
+		i := 0
+		for i < len(a) && i < len(b) && a[i] == b[i] {
+			i++
+		}
+		la, lb := "", ""
+		if i < len(a) && i < len(b) {
+			la, lb = a[i], b[i]
+		}
+		run.Fail("corpus/not-a-gofmt-fixed-point/"+prDiffKind(la, lb), fmt.Sprintf("%s: go/format changes the printed text: `%s` becomes `%s`", rel, la, lb), rep)
+	}
+	return true
+}
+
+func prDiffKind(a, b string) string {
+	ta, tb := strings.Join(strings.Fields(a), " "), strings.Join(strings.Fields(b), " ")
+	switch {
+	case ta == tb:
+		return "white-space-only"
+	case strings.ReplaceAll(ta, " ", "") == strings.ReplaceAll(tb, " ", ""):
+		return "blanks-inside-line"
+	}
+	return "line-structure"
+}
+
